@@ -356,6 +356,9 @@ func (c *Ctx) callEffects(ins ssa.CallInstruction, l *Loop, top bool, seen map[*
 func (c *Ctx) specEffects(sp *FuncSpec, fn *ssa.Function, cc *ssa.CallCommon, l *Loop) {
 	for _, m := range sp.Modifies {
 		m = strings.TrimSpace(m)
+		if c.ghostNames()[m] {
+			continue // ghost variables are havocked at every loop head anyway
+		}
 		if m == "heap" {
 			l.ModAll = true
 			l.Reasons = append(l.Reasons, "modifies heap of "+sp.Name)
@@ -596,6 +599,20 @@ func (c *Ctx) bindRangeIndex(env *SpecEnv, s *State, fr *Frame, l *Loop) {
 					if loc, ok := v.(*Loc); ok {
 						t, _ := s.loadIn(s.Heap, s.Cells, loc)
 						env.Vars["rangeindex"] = TV{T: t, Ty: tyInt, Sort: "Int"}
+						// the slice being ranged over (an SSA temporary): `rangeexpr`
+						for b := range l.Body {
+							for _, i2 := range b.Instrs {
+								if ia, ok := i2.(*ssa.IndexAddr); ok {
+									if u, ok := ia.Index.(*ssa.UnOp); ok && u.X == a {
+										if xv, ok := fr.Vals[ia.X]; ok {
+											if xt, ok := xv.(string); ok {
+												env.Vars["rangeexpr"] = c.mkTV(xt, ia.X.Type())
+											}
+										}
+									}
+								}
+							}
+						}
 						return
 					}
 				}
@@ -743,7 +760,17 @@ func (s *State) havocLoop(l *Loop, declared map[string][]Term) {
 			s.Heap[n] = nv
 		}
 	}
-	// values loaded from havocked state keep their types' ranges: wf facts are added at load time.
+	// ghost variables: whatever the loop body (its `at` statements, the contracts it calls) may have done to
+	// them is unknown at the start of an arbitrary iteration; the invariants carry what is needed
+	var gnames []string
+	for g := range s.Ghost {
+		gnames = append(gnames, g)
+	}
+	sort.Strings(gnames)
+	for _, g := range gnames {
+		tv := s.Ghost[g]
+		s.Ghost[g] = TV{T: s.freshConst("g_"+g, tv.Sort), Sort: tv.Sort, Ty: tv.Ty}
+	}
 }
 
 // invariantRef: the reference (object / backing-store base) written through w, if it is the same in every
